@@ -168,6 +168,8 @@ def build(run):
                             covers=["three hyphens become a dash reachable", "token with hyphens and other characters reachable"],
                             claim="Some(dash) only for tokens made of hyphens alone (>= 2), and the dash is U+2014 or U+2015")], timeout=900)
 
+    crate_h, lemma_h = ws_lemma(run)
+    run.kani(crate_h, [lemma_h], timeout=900)
     crate_g, lemmas_g = mms_loss_lemma(run)
     run.kani(crate_g, lemmas_g, timeout=900)
 
@@ -312,3 +314,60 @@ def mms_loss_lemma(run):
                         role=lambda v, o: "sibling-between-script-and-base-dropped",
                         covers=["the conversion returns reachable"],
                         claim="every visible token of the row is still under one of the row's children after the conversion") for k, sh in enumerate(shapes)]
+
+
+# ======================================================================================================================
+# D-C01-h: merge_whitespace (runs of blank mtext are folded into a width attribute of a neighbour) removes nothing but blanks
+WS_SHIM = r"""
+impl<'a> dom::Element<'a> {
+    /// only data-width is asked for: every blank mtext carries it (set by the mtext arm of clean_mathml / the placeholder constructors)
+    fn attribute_value(&self, nm: &str) -> Option<&'static str> { if nm == "data-width" && name(self) == "mtext" && as_text(*self) == "\u{a0}" { Some("1") } else { None } }
+}
+#[cfg(kani)]
+fn parse_stub<F: core::str::FromStr>(_s: &str) -> Result<F, F::Err> { Ok(unsafe { core::mem::zeroed() }) }       // only f64 widths are parsed here; the number is not the subject
+HARNESS(merge_whitespace_removes_only_blanks, 12, [std::string::ToString::to_string => to_string_stub, str::parse => parse_stub]) {
+    let row = dom::new_node(5);
+    let n = 1 + sym::below(4);
+    let mut blank = [false; 4];
+    let mut ids = [0u8; 4];
+    let mut i = 0;
+    while i < 4 {
+        if i < n {
+            blank[i] = sym::bool();
+            let e = if blank[i] { let e = dom::new_node(4); dom::set_leaf(e, 20); e } else { let e = dom::new_node(0); dom::set_leaf(e, 4); e };
+            ids[i] = e.id; row.append_child_id(e.id);
+        }
+        i += 1;
+    }
+    let mut children = row.children();
+    merge_whitespace(&mut children);                                            // must not panic
+    cover!(n == 4 && blank[1] && blank[2] && !blank[0] && !blank[3], "run of two blanks between tokens reachable");
+    cover!(n == 3 && blank[2] && !blank[1], "trailing blank reachable");
+    // every non-blank child is still there, in order, and nothing was added
+    let mut j = 0; let mut k = 0;
+    while k < 4 {
+        if k < n && !blank[k] { assert!(j < children.len() && as_element(children[j]).id == ids[k], "merging blanks removed or reordered a token"); j += 1; }
+        else if k < n && j < children.len() && as_element(children[j]).id == ids[k] { j += 1; }     // a blank that was kept (e.g. the only child)
+        k += 1;
+    }
+    assert!(j == children.len(), "merging blanks added a child");
+}
+"""
+
+
+def ws_lemma(run):
+    c = slicer.Source.get("src/canonicalize.rs")
+    f = c.find("fn clean_mathml", "fn merge_whitespace")
+    run.uses(f)
+    crate = kani_run.Crate("c01ws", prelude.MINIDOM + prelude.TOSTRING_STUB + f.text + WS_SHIM)
+    run.bound("D-C01-h", "merge_whitespace verbatim on rows of 1..4 children, each a blank mtext (with data-width) or an <mi>x</mi> (model DOM)")
+    run.assume("model DOM (MINIDOM); every blank mtext carries data-width (invariant established by the mtext arm of clean_mathml); f64 parsing / formatting of the widths stubbed (the number is not the subject)")
+
+    def api_ws(vals, out):
+        import re
+        res = mcprobe([("mathml", "<math><mi>a</mi><mtext>&#xA0;</mtext><mtext>&#xA0;</mtext><mi>b</mi><mtext>&#xA0;</mtext></math>")])
+        leaves = "".join(re.findall(r">([^<>\s]+)</m[ion]>", res[0][1])).replace("&#x2062;", "") if res[0][0] == "OK" else ""
+        return leaves != "ab", {"script": "set_mathml(a, two blank mtext, b, blank mtext): a and b must survive", "leaves": leaves, "result": res[0]}
+    return crate, dict(id="D-C01-h.merge_whitespace", harness="merge_whitespace_removes_only_blanks", api=api_ws, role=lambda v, o: "whitespace-merge-drops-a-token",
+                       covers=["run of two blanks between tokens reachable", "trailing blank reachable"],
+                       claim="no panic; the non-blank children are kept, in order; nothing is added")
